@@ -84,8 +84,7 @@ func main() {
 	st2.Push(sh.Point{X: 5, Y: 6})
 	top, _ := st2.Pop()
 	fmt.Println(top.Norm1(), st2.Len(), sh.Area(sh.Rect{Min: sh.Point{}, Max: top}))
-	conv := sh.Converted(struct{ X, Y int }{7, 8})
-	fmt.Println(conv.X+conv.Y, sh.Origin.Norm1(), sh.Named(conv).Norm1())
+	anonConv()
 	if len(os.Args) > 1 {
 		fmt.Println("args:", strings.Join(os.Args[1:], ","), Twice(len(os.Args)))
 		if os.Args[1] == "fail" {
